@@ -168,27 +168,29 @@ CHECKS = {
         design_ref="DESIGN.md section 8, C13",
         technique="Lean permutation-invariance lemmas + cross-process, cross-hash-seed byte comparison of real outputs",
     ),
+    "C06": dict(
+        category="translation_validation",
+        text=("For small specifications and a covering family of 20 encoder option sets the text the real encoder hands to the solver is "
+              "given to z3 (stand-in): it must be accepted without errors (every symbol declared once at its sort), and the optimum plus "
+              "further models of the hard constraints (blocking clauses), decoded with the encoder's own theta table, must pass the Lean "
+              "`Spec.realizes` within the declared length and stack bounds. No Lean model of the encoder exists, so this is per-model "
+              "validation, not a proof; one genuine finding (-push-basic with uninterpreted sorts) is listed in known_findings.json."),
+        design_ref="DESIGN.md section 8, C06",
+        technique="model enumeration with z3 over the real encoder's output, each decoded model checked by the Lean 'realizes' specification",
+    ),
+    "C07": dict(
+        category="model_checking",
+        text=("Exhaustive on small instances: for specifications with init_progr_len <= 4 (thorough 5) every instruction-id sequence up to "
+              "the bound is enumerated and checked by Lean's Spec.realizes; the solver's optimum under 13 option sets (criteria, bounds, "
+              "ordering and pruning constraints on/off) must cost the true minimum, unsat may not coincide with a realizable specification, "
+              "optima must agree across option sets, and soft cost minus true cost must be constant over enumerated models. Bounded "
+              "enumeration, labelled as such; no theorem about the bounds heuristics."),
+        design_ref="DESIGN.md section 8, C07",
+        technique="exhaustive enumeration of realizing sequences (Lean checker) against the solver optimum and soft-constraint pricing on small instances",
+    ),
 }
 
 NOT_APPLICABLE = [
-    {"property_id": "C01", "reason": "check not built yet (work in progress this session); see DESIGN.md section 8"},
-    {"property_id": "C02", "reason": "check not built yet (work in progress this session); see DESIGN.md section 8"},
-    {"property_id": "C03", "reason": "check not built yet (work in progress this session); see DESIGN.md section 8"},
-    {"property_id": "C04", "reason": "check not built yet (work in progress this session); see DESIGN.md section 8"},
-    {"property_id": "C05", "reason": "check not built yet (work in progress this session); see DESIGN.md section 8"},
-    {"property_id": "C06", "reason": "check not built yet (work in progress this session); see DESIGN.md section 8"},
-    {"property_id": "C07", "reason": "check not built yet (work in progress this session); see DESIGN.md section 8"},
-    {"property_id": "C08", "reason": "check not built yet (work in progress this session); see DESIGN.md section 8"},
-    {"property_id": "C09", "reason": "check not built yet (work in progress this session); see DESIGN.md section 8"},
-    {"property_id": "C10", "reason": "check not built yet (work in progress this session); see DESIGN.md section 8"},
-    {"property_id": "C11", "reason": "check not built yet (work in progress this session); see DESIGN.md section 8"},
-    {"property_id": "C12", "reason": "check not built yet (work in progress this session); see DESIGN.md section 8"},
-    {"property_id": "C13", "reason": "check not built yet (work in progress this session); see DESIGN.md section 8"},
-    {"property_id": "C14", "reason": "check not built yet (work in progress this session); see DESIGN.md section 8"},
-    {"property_id": "C15", "reason": "check not built yet (work in progress this session); see DESIGN.md section 8"},
-    {"property_id": "C16", "reason": "check not built yet (work in progress this session); see DESIGN.md section 8"},
-    {"property_id": "C17", "reason": "check not built yet (work in progress this session); see DESIGN.md section 8"},
-    {"property_id": "C18", "reason": "check not built yet (work in progress this session); see DESIGN.md section 8"},
 ]
 
 
